@@ -233,7 +233,9 @@ func (r *tdRunner) run(tc *tdCase) (res tdResult) {
 	logf := func(f string, a ...interface{}) { res.Log = append(res.Log, fmt.Sprintf(f, a...)) }
 	dev := func(f string, a ...interface{}) string { return fmt.Sprintf(f, a...) }
 	base := pebblesGoroutines()
-	s := sched.New(true, func(k string) bool { return gated[baseKey(k)] })
+	// only the first instance of every kind is gated (a restart creates second instances, which run freely)
+	s := sched.New(true, func(k string) bool { return gated[k] })
+	second := false // a second operation is running under the id
 	rt.begin(s)
 	defer func() {
 		s.Open()
@@ -241,7 +243,7 @@ func (r *tdRunner) run(tc *tdCase) (res tdResult) {
 	}()
 
 	var cl *client
-	var up *upConn
+	var up, up2 *upConn
 	defer func() {
 		if cl != nil {
 			cl.conn.Close()
@@ -329,6 +331,12 @@ func (r *tdRunner) run(tc *tdCase) (res tdResult) {
 				case "stop":
 					cl.send(map[string]string{"type": "stop", "id": "7"})
 					res.SubEnded = true
+					second = false
+				case "restart":
+					// a start under the id in use; the operation it starts is a second instance, which runs freely
+					cl.start("7", tdQuery, map[string]interface{}{}, "")
+					res.SubEnded = true
+					second = true
 				case "terminate":
 					cl.send(map[string]string{"type": "connection_terminate"})
 					res.ConnEnded = true
@@ -343,6 +351,18 @@ func (r *tdRunner) run(tc *tdCase) (res tdResult) {
 				}
 				if !passMsg() {
 					return dev("step %d %v: the handler did not read the message; parked %v", i, st.Act, parkedList(s))
+				}
+				if strAt(st.Act, 1) == "restart" {
+					// the upstream connection of the operation that replaces ours
+					select {
+					case up2 = <-upsvc.conns:
+						select {
+						case <-up2.started:
+						case <-time.After(stepTimeout):
+						}
+					case <-time.After(stepTimeout):
+						return dev("step %d %v: the replacing operation did not connect upstream", i, st.Act)
+					}
 				}
 			case "Race":
 				// Listen's select has two ready cases (closeCh closed, the reader sending): which one it takes cannot be
@@ -458,6 +478,9 @@ func (r *tdRunner) run(tc *tdCase) (res tdResult) {
 	want := []string{}
 	if !res.ConnEnded {
 		want = []string{"handler", "heartbeat"}
+		if second {
+			want = append(want, "Listen", "closer", "reader")
+		}
 	}
 	if ended {
 		extra, _ := settle(base, want, 400*time.Millisecond)
@@ -492,6 +515,12 @@ func (r *tdRunner) run(tc *tdCase) (res tdResult) {
 	// clean up: end the connection and the upstream, whatever state they are in
 	cl.reset()
 	up.Drop()
+	if up2 != nil {
+		if ended && res.ConnEnded && !up2.IsClosed(400*time.Millisecond) {
+			res.UpOpen = true // the replacing operation's upstream connection outlived the client connection
+		}
+		up2.Drop()
+	}
 	settle(base, nil, 300*time.Millisecond)
 	return res
 }
